@@ -306,6 +306,30 @@ def m_part(run, scr, nat, table, oracle):
               mcheck.pc_assert(r1[0].pc) + ["(> v 1.0)", "(= %s v)" % r1[0].value.expr], "unsat" if ratio != 1 else "sat")
         npairs += 1
 
+    # ---- translator validation: the encoding with v fixed predicts what the real kernel returns (first pairs of the seeded order)
+    nbad = 0
+    nval = 0
+    for (a, b) in pairs[:12]:
+        for vv in (1.0, 37.5, -2.25):
+            sem, it = new_interp()
+            r1, _ = kernel(it, "v", const_unit(decls, a), const_unit(decls, b))
+            verdict, model = ms.solver("z3-new", tag, G).check(mcheck.pc_assert(r1[0].pc) + ["(= v %s)" % smt.rat(Fraction(vv))],
+                                                               values=[r1[0].value.expr], local_decls=sem.decls)
+            real = nat.call("convert", repr(vv), a["symbol"], b["symbol"])
+            nval += 1
+            run.traces_validated += 1
+            try:
+                pred = Fraction(smt.parse_values(model)[r1[0].value.expr])
+                mag = (abs(Fraction(vv)) + abs(Fraction(a["difference"]))) * Fraction(a["ratio"]) / Fraction(b["ratio"]) + abs(Fraction(b["difference"]))
+                if verdict != "sat" or abs(pred - Fraction(real["value"])) > 8 * U * mag:
+                    raise ValueError("encoding %s vs real %s" % (float(pred), real))
+            except Exception as e:
+                nbad += 1
+                run.inconclusive.append("translator validation convert_f64(%r, %s, %s): %s" % (vv, a["symbol"], b["symbol"], e))
+    run.add_obligation("translator validation on %d concrete conversions" % nval, "mir-smt+native", "holds" if not nbad else "inconclusive",
+                       vectors=nval, disagreements=nbad)
+    run.vccs += nval
+
     # ---- triples: via a third unit agrees with the direct conversion
     triples = [(a, b, c) for (a, b) in pairs for c in units if c["quantity"] == a["quantity"] and c["oracle"]]
     rnd.shuffle(triples)
